@@ -83,6 +83,35 @@ class Trav(Suite):
                         root = rng.choice(inner)
                 api = rng.choice(["swc_utils", "tree", "node"])
                 out.append({"class": f"{shape}/{numbering}/{api}", "n": nn, "pids": pids, "root": root, "api": api})
+        # the tree as it is NOW: traverse, re-parent one node in place through its node handle, traverse again
+        for _ in range(8 if tier == "quick" and not widen else 30):
+            n = rng.choice([5, 7, 9, 12, 16])
+            pre = gen.renumber_root0(rng, gen.parents_sorted(rng, n, gen.pick_shape(rng, rng.randrange(50))))
+            nn = len(pre)
+            if nn < 3:
+                continue
+            kids = {}
+            for i, p in enumerate(pre):
+                kids.setdefault(p, []).append(i)
+            i = rng.randrange(1, nn)
+            below, todo = {i}, [i]
+            while todo:
+                for c in kids.get(todo.pop(), []):
+                    below.add(c); todo.append(c)
+            cand = [q for q in range(nn) if q not in below and q != pre[i]]
+            if not cand:
+                continue
+            q = rng.choice(cand)
+            post = list(pre); post[i] = q
+            root = rng.choice([0, 0, q, pre[i], i])
+            out.append({"class": f"edited/{rng.choice(['tree', 'node'])}", "n": nn, "pids": post, "pre_pids": pre, "edit": [i, q],
+                        "root": root, "api": rng.choice(["tree", "node"])})
+        # deeply NESTED furcations (a comb: every spine node also carries a tip): depth of the furcation nesting,
+        # not only of the chain, must not be bounded by the interpreter's recursion limit
+        m = 3000 if tier == "quick" and not widen else 20000
+        comb = [-1] + [v for k in range(1, m) for v in (2 * (k - 1), 2 * (k - 1))]
+        out.append({"class": "deepcomb/sorted/swc_utils", "n": len(comb), "pids": comb, "root": 0, "api": "swc_utils", "big": True})
+        out.append({"class": "deepcomb/sorted/tree", "n": len(comb), "pids": comb, "root": 0, "api": rng.choice(["tree", "node"]), "big": True})
         if tier == "thorough" and not widen:
             out.append({"class": "deepchain/sorted/swc_utils", "n": 100000, "pids": [-1] + list(range(99999)), "root": 0, "api": "swc_utils", "big": True})
             out.append({"class": "deepchain/sorted/tree", "n": 30000, "pids": [-1] + list(range(29999)), "root": 0, "api": "tree", "big": True})
@@ -101,7 +130,14 @@ class Trav(Suite):
         if api == "swc_utils":
             ret = swc_utils.traverse((ids, p), enter=enter, leave=leave, root=root)
         else:
-            t = gen.make_tree({"n": n, "pids": pids, "types": [1] * n, "xyz": [[0, 0, 0]] * n, "r": [1] * n})
+            t = gen.make_tree({"n": n, "pids": case.get("pre_pids", pids), "types": [1] * n, "xyz": [[0, 0, 0]] * n, "r": [1] * n})
+            if "pre_pids" in case:
+                # use the tree first (traversals, decomposition), then re-parent one node through its handle
+                t.traverse(enter=lambda nd, pv: 0, leave=lambda nd, ks: 0)
+                t.node(root).traverse(leave=lambda nd, ks: 0)
+                t.get_branches(); t.get_tips()
+                t.node(case["edit"][0]).pid = case["edit"][1]
+                assert t.pid().tolist() == pids
             e2 = lambda nd, pv: enter(nd.id, pv)
             l2 = lambda nd, ks: leave(nd.id, ks)
             if api == "tree":
@@ -127,7 +163,7 @@ class Trav(Suite):
         if case.get("big"):
             bad = []
             if res["n_log"] != 2 * n:
-                bad.append(("call-count", f"{res['n_log']} callback calls on a chain of {n} nodes"))
+                bad.append(("call-count", f"{res['n_log']} callback calls on a tree of {n} nodes"))
             return bad
         kids = {}
         for i, p in enumerate(pids):
